@@ -380,6 +380,7 @@ class _resolve_called_lambdas(ast.NodeTransformer):
 
     def __init__(self):
         self._arg_map_list = []
+        self._rename_index = 0
 
     def visit_Call(self, node: ast.Call) -> Any:
         # Check if the function being called is a lambda
@@ -401,6 +402,40 @@ class _resolve_called_lambdas(ast.NodeTransformer):
         else:
             return self.generic_visit(node)
         return node
+
+    def visit_Lambda(self, node: ast.Lambda) -> Any:
+        """The parameters of a lambda we are not calling hide outer arguments of the same name
+        inside its body. A parameter that would capture a name used by an argument we are
+        substituting is renamed."""
+        if len(self._arg_map_list) == 0:
+            return self.generic_visit(node)
+
+        names_in_flight = set()
+        for arg_map in self._arg_map_list:
+            for replacement in arg_map.values():
+                names_in_flight.update(
+                    n.id for n in ast.walk(replacement) if isinstance(n, ast.Name)
+                )
+
+        names_in_body = {n.id for n in ast.walk(node) if isinstance(n, ast.Name)}
+        new_args = copy.deepcopy(node.args)
+        own_names = {}
+        for a in new_args.posonlyargs + new_args.args + new_args.kwonlyargs:
+            if a.arg in names_in_flight:
+                self._rename_index += 1
+                new_name = f"{a.arg}_{self._rename_index}"
+                while new_name in names_in_flight or new_name in names_in_body:
+                    self._rename_index += 1
+                    new_name = f"{a.arg}_{self._rename_index}"
+                own_names[a.arg] = ast.Name(id=new_name, ctx=ast.Load())
+                a.arg = new_name
+            else:
+                own_names[a.arg] = ast.Name(id=a.arg, ctx=ast.Load())
+
+        self._arg_map_list.append(own_names)
+        new_body = self.visit(node.body)
+        self._arg_map_list.pop()
+        return ast.Lambda(args=new_args, body=new_body)
 
     def visit_Name(self, node: ast.Name) -> Any:
         "Look through the arg map to see if it is a argument"
